@@ -98,12 +98,27 @@ func genItems(rng *rand.Rand, v6 bool) []item {
 	if rng.IntN(3) != 0 {
 		n = rng.IntN(25)
 	}
+	// long-lived servers: hundreds of undecodable datagrams before the valid ones ("flood"), and hundreds of handlers
+	// that are all still running ("hold": nothing in C14 lets the loop wait for a handler)
+	mode := ""
+	switch rng.IntN(24) {
+	case 0:
+		mode, n = "flood", 150+rng.IntN(250)
+	case 1:
+		mode, n = "hold", 130+rng.IntN(120)
+	}
 	var items []item
 	for i := 0; i < n; i++ {
 		it := item{from: sender(rng, v6), nonce: i + 1, release: releasePlan(rng)}
 		var nb [4]byte
 		binary.BigEndian.PutUint32(nb[:], uint32(it.nonce))
 		kind := rng.IntN(10)
+		switch {
+		case mode == "flood" && i < n-20 && rng.IntN(20) != 0:
+			kind = 6 + rng.IntN(4)
+		case mode == "hold":
+			kind, it.release = 0, "end"
+		}
 		if v6 {
 			switch {
 			case kind < 6:
@@ -196,10 +211,15 @@ func runCase(r *mon.Rec, famName string, idx int) {
 	rng := r.Rand("c14."+famName, idx)
 	v6 := famName == "server6"
 	items := genItems(rng, v6)
-	stopKind := []string{"read-error", "close", "close"}[rng.IntN(3)]
+	// close-in-read: Close arrives while ReadFrom is handing back a datagram it has already taken off the socket
+	// (that datagram has been read, so it must still be dispatched); close: Close arrives while the loop waits in ReadFrom
+	stopKind := []string{"read-error", "close", "close", "close-in-read"}[rng.IntN(4)]
 	stopAt := len(items)
 	if rng.IntN(2) == 0 && len(items) > 0 {
 		stopAt = rng.IntN(len(items) + 1)
+	}
+	if stopKind == "close-in-read" && stopAt == 0 {
+		stopKind = "close"
 	}
 	r.Eval(1)
 	rp := replay{famName, idx}
@@ -269,9 +289,24 @@ func runCase(r *mon.Rec, famName string, idx int) {
 			time.Sleep(100 * time.Microsecond)
 		}
 	}
+	nbad := func(upto int) (n int) {
+		for i := 0; i < upto && i < len(items); i++ {
+			if !items[i].valid {
+				n++
+			}
+		}
+		return
+	}
 	serveDone := make(chan struct{})
 	var serveErr error
 	var closeSrv func() error
+	if stopKind == "close-in-read" {
+		conn.OnTake = func(k int) {
+			if k == stopAt-1 {
+				closeSrv()
+			}
+		}
+	}
 	if v6 {
 		srv, err := server6.NewServer("", nil, func(c net.PacketConn, peer net.Addr, m dhcpv6.DHCPv6) {
 			nonce := 0
@@ -331,10 +366,13 @@ func runCase(r *mon.Rec, famName string, idx int) {
 			case <-serveDone:
 				early = true
 			default:
+				mu.Lock()
+				started := len(recs)
+				mu.Unlock()
 				close(endCh)
 				waitHandlers()
 				closeSrv()
-				bad("serve-loop-blocked", "after %d datagrams the serving loop did not read the next datagram for 15 s while handlers were still running (handlers must run concurrently with the loop)", fed)
+				bad("serve-loop-blocked", "after %d datagrams (%d of them undecodable) the serving loop did not read the next datagram for 15 s; %d handlers had been started and were held by the harness (neither a handler that is still running nor a malformed datagram may stop the loop)", fed, nbad(fed), started)
 				stopShard = true
 				return
 			}
@@ -350,7 +388,7 @@ func runCase(r *mon.Rec, famName string, idx int) {
 	}
 	select {
 	case <-serveDone:
-		if stopKind != "read-error" {
+		if stopKind == "close" {
 			close(endCh)
 			waitHandlers()
 			bad("serve-returned-early", "Serve returned (%v) before Close was called", serveErr)
@@ -398,13 +436,14 @@ func runCase(r *mon.Rec, famName string, idx int) {
 	}
 	close(endCh)
 	waitHandlers()
-	if stopKind == "read-error" && !errors.Is(serveErr, errScripted) {
-		bad("serve-error", "Serve returned %v, want the read error", serveErr)
-		return
-	}
-	if stopKind == "close" && serveErr == nil {
-		bad("serve-error", "Serve returned nil after Close")
-		return
+	// what Serve returns is not part of C14 (only when it returns): observed, not judged
+	switch {
+	case serveErr == nil:
+		r.Count("serve_returned.nil."+stopKind, 1)
+	case errors.Is(serveErr, errScripted):
+		r.Count("serve_returned.read-error."+stopKind, 1)
+	default:
+		r.Count("serve_returned.other-error."+stopKind, 1)
 	}
 	// conservation with unique ids
 	seen := map[int]int{}
